@@ -71,7 +71,7 @@ def main(argv):
             notes = json.load(open(os.path.join(d, "notes.json")))
         except Exception:
             pass
-        for X in ("A", "B", "C", "D", "E", "F", "G", "H", "I", "J", "K", "L", "M", "N"):
+        for X in ("A", "B", "C", "D", "E", "F", "G", "H", "I", "J", "K", "L", "M", "N", "O", "P"):
             patch = os.path.join(d, f"{X}.patch.diff")
             alt = os.path.join(VERIF, "seeded", f"{pid}-{X}", "patch.diff")
             demo = os.path.join(d, f"{X}_demo.py")
